@@ -329,7 +329,7 @@ def run(ctx, replay=None):
     ctx.notes['family'] = f'{len(family)} command lines of <= {n} scripts over the {len(alpha["scripts"])}-script alphabet of MC_Cli'
     for need in ('log', 'static', 'timing', 'dbgfail', 'error:undefined', 'error:syntax', 'error:load', 'error:varsyntax'):
         if not kinds.get(need):
-            raise tlc.MachineryError(f'vacuity: no run printed a line of class {need}')
+            ctx.vacuous(f'vacuity: no run printed a line of class {need}')
     return F.finish(ctx, rule='command lines over the MC_Cli alphabet (files and inline code, -d / -s, -v sets; exhaustive to length n) '
                     'plus random command lines of 1-4 random terminating scripts; each run through the real main() in a scratch '
                     'directory and validated against the BareCli machine one critical section per step', exhaustive=True)
